@@ -314,9 +314,16 @@ func (w *worker) replay(cs []call, nilEmpty bool) result {
 		if gm == exp && gl == exp {
 			continue
 		}
-		if gm == gl { // the backends agree, the specification says something else
+		if gm == gl {
+			// The backends agree with each other but not with the contract (KV.tla): they have
+			// drifted together (or one was changed to share the other's defect).
+			ctx, why := mem.cause(c, gm, exp)
 			res.drift++
 			res.driftDesc = fmt.Sprintf("after %s: both backends return %v, specification says %v", fmtCalls(cs, i), gm, exp)
+			report("both:"+ctx+":"+why,
+				fmt.Sprintf("both backends break the dbm.DB contract after %s: memdb and goleveldb return %v, specification (KV.tla) requires %v",
+					fmtCalls(cs, i), gm, exp),
+				map[string]interface{}{"mode": "replay", "nil_for_empty": nilEmpty, "calls": cs[:i+1], "memdb": gm, "goleveldb": gl, "spec": exp})
 			break
 		}
 		// the backends disagree: property violated; the specification names the wrong side
@@ -374,6 +381,7 @@ func mainReplay(path, dir, variant string) {
 		go func(i int) {
 			defer wg.Done()
 			w := &worker{dir: filepath.Join(dir, fmt.Sprintf("w%d", i))}
+			os.RemoveAll(w.dir) // never start on a directory left by an earlier run
 			os.MkdirAll(w.dir, 0755)
 			for j := range jobs {
 				cs, err := parse(j.doc)
